@@ -1,5 +1,10 @@
 /-
   C17 — All server front-ends are behaviourally interchangeable.
+  Two layers.  (A) Front-ends of the same kind (same reaction to an undecodable frame, both counting sent messages or
+  both not) are equal as functions: for every byte string, every request class, every world.  (B) Across kinds — the
+  Twisted protocols count the messages they send and honour listen-only mode, features the others lack — the
+  front-ends are related by a simulation that ignores the counters: for the requests every front-end supports alike
+  (data access and identification) they write the same bytes and leave the same datastore.
 -/
 import Pymodbus.Props.C12
 namespace Pymodbus.Props.C17
@@ -8,132 +13,318 @@ open Pymodbus Pymodbus.Server Pymodbus.Framer
 /-- the features all front-ends support: broadcast off (the Twisted protocols have none) -/
 def Common (cfg : Cfg) : Prop := cfg.broadcast = false
 
+/-- how a front-end reacts to an exception out of the receive loop: 0 = closes the connection, 1 = resets the
+    framer and goes on, 2 = (sync UDP) every datagram gets a new framer anyway -/
+def reaction : Frontend → Nat
+  | .syncTcp | .aioTcp | .twistedTcp => 0
+  | .syncSerial | .aioUdp | .twistedUdp => 1
+  | .syncUdp => 2
+
 theorem accepted_common (cfg : Cfg) (ctx : Units) (h : Common cfg) : acceptedUnits cfg ctx = hosted ctx := by
   simp [acceptedUnits, Common.eq_1 cfg ▸ h]
 
 theorem callback_common (c1 c2 : Cfg) (h1 : Common c1) (h2 : Common c2) (hi : c1.ignoreMissing = c2.ignoreMissing)
-    (ctx : Units) (r : Req) (uid : Nat) : callback c1 ctx r uid = callback c2 ctx r uid := by
+    (w : World) (r : Req) (uid : Nat) : callback c1 w r uid = callback c2 w r uid := by
   unfold callback
   simp only [Common] at h1 h2
   simp [h1, h2, hi]
 
-theorem handle_common (c1 c2 : Cfg) (h1 : Common c1) (h2 : Common c2) (hi : c1.ignoreMissing = c2.ignoreMissing)
-    (hf : c1.framer = c2.framer) (ctx : Units) (evs : List (Ev Req)) :
-    handleEvents c1 ctx evs = handleEvents c2 ctx evs := by
-  induction evs generalizing ctx with
+theorem frameResp_common (c1 c2 : Cfg) (hf : c1.framer = c2.framer) : frameResp c1 = frameResp c2 := by
+  funext rp uid tid pid; simp only [frameResp, hf]
+
+/-! ## (A) same kind: equal for every byte string and every request class -/
+
+theorem handle_samekind (c1 c2 : Cfg) (h1 : Common c1) (h2 : Common c2) (hi : c1.ignoreMissing = c2.ignoreMissing)
+    (hf : c1.framer = c2.framer) (hk : isTwisted c1.frontend = isTwisted c2.frontend) (w : World) (evs : List (Ev Req)) :
+    handleEvents c1 w evs = handleEvents c2 w evs := by
+  have hc : countMessage c1 = countMessage c2 := by funext w; simp only [countMessage, hk]
+  induction evs generalizing w with
   | nil => rfl
   | cons e rest ih =>
     cases e with
     | raised err => rfl
     | deliver r uid tid pid =>
-      simp only [handleEvents, callback_common c1 c2 h1 h2 hi, frameResp, hf, ih]
+      simp only [handleEvents, callback_common c1 c2 h1 h2 hi, frameResp_common c1 c2 hf, hc, ih]
 
-/-- same initial datastore, same request bytes, same framer: the three TCP front-ends (sync threaded, asyncio,
-    Twisted) write byte-identical responses and leave the datastore in the same state — for every byte string -/
+/-- the end of `connStep`: what becomes of the connection -/
+def finish (fe : Frontend) (conn : Conn) (buf' : Bytes) : Option PyErr → Conn
+  | none => { conn with buf := if fe = .syncUdp then [] else buf' }
+  | some _ => match fe with
+    | .syncTcp | .aioTcp | .twistedTcp => { buf := [], running := false }
+    | .syncSerial | .aioUdp | .syncUdp | .twistedUdp => { buf := [], running := true }
+
+theorem finish_reaction (f1 f2 : Frontend) (h : reaction f1 = reaction f2) : finish f1 = finish f2 := by
+  funext conn buf' esc
+  cases esc <;> cases f1 <;> cases f2 <;> simp_all [finish, reaction]
+
+/-- the bytes → deliveries part of `connStep` -/
+def received (cfg : Cfg) (conn : Conn) (u : Units) (chunk : Bytes) : List (Ev Req) × Bytes :=
+  if cfg.framer = .tls then tlsFeed decServer (acceptedUnits cfg u) u.single conn.buf chunk
+  else feed (stepFor cfg.framer) decServer (acceptedUnits cfg u) u.single conn.buf chunk
+
+theorem connStep_eq (cfg : Cfg) (conn : Conn) (w : World) (chunk : Bytes) :
+    connStep cfg conn w chunk =
+      if !conn.running then (conn, w, [], none)
+      else if isTwisted cfg.frontend && w.ctl.listenOnly then (conn, w, [], none)
+      else
+        let h := handleEvents cfg w (received cfg conn w.units chunk).1
+        (finish cfg.frontend conn (received cfg conn w.units chunk).2 h.2.2, h.1, h.2.1, none) := by
+  unfold connStep received finish
+  split
+  · rfl
+  · split
+    · rfl
+    · simp only []
+      split <;> rename_i hesc <;> simp only [hesc]
+      cases cfg.frontend <;> rfl
+
+theorem received_common (c1 c2 : Cfg) (h1 : Common c1) (h2 : Common c2) (hf : c1.framer = c2.framer) :
+    received c1 = received c2 := by
+  funext conn u chunk
+  simp only [received, accepted_common c1 u h1, accepted_common c2 u h2, hf]
+
+/-- same initial world, same bytes on a connection, same framer, front-ends of the same kind: identical bytes
+    written, identical world, identical connection state — for EVERY byte string and every request class.
+    Instances: sync TCP ↔ asyncio TCP; sync serial ↔ asyncio UDP. -/
+theorem same_kind_agree (c1 c2 : Cfg) (h1 : Common c1) (h2 : Common c2)
+    (hi : c1.ignoreMissing = c2.ignoreMissing) (hf : c1.framer = c2.framer)
+    (hk : isTwisted c1.frontend = isTwisted c2.frontend) (hr : reaction c1.frontend = reaction c2.frontend)
+    (conn : Conn) (w : World) (chunk : Bytes) :
+    connStep c1 conn w chunk = connStep c2 conn w chunk := by
+  have hh : handleEvents c1 = handleEvents c2 := by
+    funext c evs; exact handle_samekind c1 c2 h1 h2 hi hf hk c evs
+  rw [connStep_eq, connStep_eq, received_common c1 c2 h1 h2 hf, hh, hk, finish_reaction _ _ hr]
+
+theorem sync_asyncio_tcp_agree (framer : FramerKind) (ign : Bool) (conn : Conn) (w : World) (chunk : Bytes) :
+    connStep ⟨framer, .syncTcp, ign, false⟩ conn w chunk = connStep ⟨framer, .aioTcp, ign, false⟩ conn w chunk :=
+  same_kind_agree ⟨framer, .syncTcp, ign, false⟩ ⟨framer, .aioTcp, ign, false⟩ (by simp [Common]) (by simp [Common]) rfl rfl rfl rfl conn w chunk
+
+theorem same_kind_agree_history (c1 c2 : Cfg) (h1 : Common c1) (h2 : Common c2)
+    (hi : c1.ignoreMissing = c2.ignoreMissing) (hf : c1.framer = c2.framer)
+    (hk : isTwisted c1.frontend = isTwisted c2.frontend) (hr : reaction c1.frontend = reaction c2.frontend)
+    (conn : Conn) (w : World) (chunks : List Bytes) :
+    serve c1 conn w chunks = serve c2 conn w chunks := by
+  induction chunks generalizing conn w with
+  | nil => rfl
+  | cons c cs ih =>
+    simp only [serve, same_kind_agree c1 c2 h1 h2 hi hf hk hr, ih]
+
+/-- … and over every interleaving of several connections sharing the world -/
+theorem same_kind_agree_schedule (c1 c2 : Cfg) (h1 : Common c1) (h2 : Common c2)
+    (hi : c1.ignoreMissing = c2.ignoreMissing) (hf : c1.framer = c2.framer)
+    (hk : isTwisted c1.frontend = isTwisted c2.frontend) (hr : reaction c1.frontend = reaction c2.frontend)
+    (conns : Nat → Conn) (w : World) (sched : List (Nat × Bytes)) :
+    serveSched c1 conns w sched = serveSched c2 conns w sched := by
+  induction sched generalizing conns w with
+  | nil => rfl
+  | cons s rest ih =>
+    obtain ⟨i, c⟩ := s
+    simp only [serveSched, same_kind_agree c1 c2 h1 h2 hi hf hk hr, ih]
+
+/-! ## (B) across kinds: simulation up to the message counters -/
+
+/-- the requests every front-end serves alike: data access and identification (the diagnostic / event requests
+    report counters that only the Twisted protocols maintain, and Force Listen Only is honoured by them alone) -/
+def supported : Req → Bool
+  | .reportSlaveId | .readDeviceInfo .. => true
+  | r => isDataAccess r
+
+/-- worlds that differ at most in the counters, neither in listen-only mode -/
+structure Sim (w1 w2 : World) : Prop where
+  units : w1.units = w2.units
+  ident : w1.ctl.ident = w2.ctl.ident
+  l1 : w1.ctl.listenOnly = false
+  l2 : w2.ctl.listenOnly = false
+
+theorem execAny_sim (c1 c2 : Control) (hid : c1.ident = c2.ident) (s : SlaveCtx) (r : Req) (hr : supported r = true) :
+    (execAny c1 s r).2 = (execAny c2 s r).2 ∧ (execAny c1 s r).1.ident = (execAny c2 s r).1.ident ∧
+    (execAny c1 s r).1.listenOnly = c1.listenOnly ∧ (execAny c2 s r).1.listenOnly = c2.listenOnly := by
+  by_cases hd : isDataAccess r = true
+  · rw [C09.execAny_dataAccess c1 s r hd, C09.execAny_dataAccess c2 s r hd]
+    exact ⟨rfl, hid, rfl, rfl⟩
+  · cases r <;> simp [supported, isDataAccess] at hr hd
+    case reportSlaveId =>
+      simp only [execAny, execRaw, isDataAccess, Bool.false_eq_true, if_false, Impl.executeOther, hid]
+      first | exact ⟨rfl, rfl, rfl, rfl⟩ | simp
+    case readDeviceInfo sub rc oid =>
+      simp only [execAny, execRaw, isDataAccess, Bool.false_eq_true, if_false, Impl.executeOther, hid]
+      cases DevId.execute c2.ident rc oid with
+      | error e => exact ⟨rfl, hid, rfl, rfl⟩
+      | ok x =>
+        obtain ⟨d', out⟩ := x
+        cases out <;> first | exact ⟨rfl, rfl, rfl, rfl⟩ | simp
+
+theorem callback_sim (c1 c2 : Cfg) (h1 : Common c1) (h2 : Common c2) (hi : c1.ignoreMissing = c2.ignoreMissing)
+    (w1 w2 : World) (hs : Sim w1 w2) (r : Req) (hr : supported r = true) (uid : Nat) :
+    (callback c1 w1 r uid).2 = (callback c2 w2 r uid).2 ∧ Sim (callback c1 w1 r uid).1 (callback c2 w2 r uid).1 := by
+  unfold callback
+  simp only [Common] at h1 h2
+  simp only [h1, h2, Bool.false_and, Bool.false_eq_true, if_false, hs.units, hi]
+  cases hg : w2.units.getItem uid with
+  | error e =>
+    simp only []
+    split
+    · exact ⟨rfl, hs⟩
+    · exact ⟨rfl, hs⟩
+  | ok s =>
+    simp only []
+    obtain ⟨e1, e2, e3, e4⟩ := execAny_sim w1.ctl w2.ctl hs.ident s r hr
+    have e1a : (execAny w1.ctl s r).2.1 = (execAny w2.ctl s r).2.1 := congrArg Prod.fst e1
+    have e1b : (execAny w1.ctl s r).2.2 = (execAny w2.ctl s r).2.2 := congrArg Prod.snd e1
+    refine ⟨by rw [e1b], ?_⟩
+    constructor
+    · simp only [e1a]
+    · exact e2
+    · simp only []; rw [e3]; exact hs.l1
+    · simp only []; rw [e4]; exact hs.l2
+
+theorem countMessage_sim (c1 c2 : Cfg) (w1 w2 : World) (hs : Sim w1 w2) : Sim (countMessage c1 w1) (countMessage c2 w2) := by
+  unfold countMessage Control.setCounter
+  constructor
+  · split <;> split <;> exact hs.units
+  · split <;> split <;> exact hs.ident
+  · split <;> exact hs.l1
+  · split <;> exact hs.l2
+
+/-- every delivered request of the list is one all front-ends support -/
+def AllSupported : List (Ev Req) → Prop
+  | [] => True
+  | .raised _ :: _ => True
+  | .deliver r _ _ _ :: rest => supported r = true ∧ AllSupported rest
+
+theorem handle_sim (c1 c2 : Cfg) (h1 : Common c1) (h2 : Common c2) (hi : c1.ignoreMissing = c2.ignoreMissing)
+    (hf : c1.framer = c2.framer) (w1 w2 : World) (hs : Sim w1 w2) (evs : List (Ev Req)) (ha : AllSupported evs) :
+    (handleEvents c1 w1 evs).2 = (handleEvents c2 w2 evs).2 ∧ Sim (handleEvents c1 w1 evs).1 (handleEvents c2 w2 evs).1 := by
+  induction evs generalizing w1 w2 with
+  | nil => exact ⟨rfl, hs⟩
+  | cons e rest ih =>
+    cases e with
+    | raised err => exact ⟨rfl, hs⟩
+    | deliver r uid tid pid =>
+      obtain ⟨hr, hrest⟩ := ha
+      obtain ⟨e1, e2⟩ := callback_sim c1 c2 h1 h2 hi w1 w2 hs r hr uid
+      cases hcb1 : callback c1 w1 r uid with
+      | mk a1 b1 =>
+        cases hcb2 : callback c2 w2 r uid with
+        | mk a2 b2 =>
+          rw [hcb1, hcb2] at e1 e2
+          simp only [] at e1 e2
+          subst e1
+          cases b1 with
+          | none =>
+            rw [C09.handle_cons_none tid pid rest hcb1, C09.handle_cons_none tid pid rest hcb2]
+            exact ih a1 a2 e2 hrest
+          | some rp =>
+            cases hsr : shouldRespond rp with
+            | false =>
+              rw [C09.handle_cons_silent tid pid rest hcb1 hsr, C09.handle_cons_silent tid pid rest hcb2 hsr]
+              exact ih a1 a2 e2 hrest
+            | true =>
+              have hfr : frameResp c1 rp uid tid pid = frameResp c2 rp uid tid pid := by
+                rw [frameResp_common c1 c2 hf]
+              cases hf1 : frameResp c1 rp uid tid pid with
+              | error e =>
+                rw [C09.handle_cons_err rest hcb1 hsr hf1, C09.handle_cons_err rest hcb2 hsr (hfr ▸ hf1)]
+                exact ⟨rfl, countMessage_sim c1 c2 a1 a2 e2⟩
+              | ok f =>
+                rw [C09.handle_cons_ok rest hcb1 hsr hf1, C09.handle_cons_ok rest hcb2 hsr (hfr ▸ hf1)]
+                obtain ⟨i1, i2⟩ := ih (countMessage c1 a1) (countMessage c2 a2) (countMessage_sim c1 c2 a1 a2 e2) hrest
+                refine ⟨?_, i2⟩
+                simp only []
+                rw [show (handleEvents c1 (countMessage c1 a1) rest).2.1 = (handleEvents c2 (countMessage c2 a2) rest).2.1 from
+                      congrArg Prod.fst i1,
+                    show (handleEvents c1 (countMessage c1 a1) rest).2.2 = (handleEvents c2 (countMessage c2 a2) rest).2.2 from
+                      congrArg Prod.snd i1]
+
+/-- ALL front-ends: same datastore and identity, same bytes on a connection, same framer — as long as the requests
+    received are data-access or identification requests, every pair of front-ends writes byte-identical responses
+    and leaves the same datastore (the worlds stay related), and connections of front-ends with the same reaction
+    stay identical too -/
+theorem all_frontends_agree (c1 c2 : Cfg) (h1 : Common c1) (h2 : Common c2)
+    (hi : c1.ignoreMissing = c2.ignoreMissing) (hf : c1.framer = c2.framer)
+    (conn : Conn) (w1 w2 : World) (hs : Sim w1 w2) (chunk : Bytes)
+    (ha : AllSupported (received c1 conn w1.units chunk).1) :
+    (connStep c1 conn w1 chunk).2.2 = (connStep c2 conn w2 chunk).2.2 ∧
+    Sim (connStep c1 conn w1 chunk).2.1 (connStep c2 conn w2 chunk).2.1 ∧
+    (reaction c1.frontend = reaction c2.frontend → (connStep c1 conn w1 chunk).1 = (connStep c2 conn w2 chunk).1) := by
+  rw [connStep_eq, connStep_eq, ← received_common c1 c2 h1 h2 hf, ← hs.units]
+  simp only [hs.l1, hs.l2, Bool.and_false, Bool.false_eq_true, if_false]
+  split
+  · exact ⟨rfl, hs, fun _ => rfl⟩
+  · obtain ⟨e1, e2⟩ := handle_sim c1 c2 h1 h2 hi hf w1 w2 hs _ ha
+    refine ⟨?_, e2, ?_⟩
+    · simp only []
+      rw [show (handleEvents c1 w1 (received c1 conn w1.units chunk).1).2.1 = _ from congrArg Prod.fst e1]
+    · intro hr
+      simp only []
+      rw [finish_reaction _ _ hr,
+        show (handleEvents c1 w1 (received c1 conn w1.units chunk).1).2.2 = _ from congrArg Prod.snd e1]
+
+/-- the three TCP front-ends (sync threaded, asyncio, Twisted), one step -/
 theorem stream_frontends_agree (c1 c2 : Cfg) (h1 : Common c1) (h2 : Common c2)
     (hi : c1.ignoreMissing = c2.ignoreMissing) (hf : c1.framer = c2.framer)
     (t1 : c1.frontend = .syncTcp ∨ c1.frontend = .aioTcp ∨ c1.frontend = .twistedTcp)
     (t2 : c2.frontend = .syncTcp ∨ c2.frontend = .aioTcp ∨ c2.frontend = .twistedTcp)
-    (conn : Conn) (ctx : Units) (chunk : Bytes) :
-    connStep c1 conn ctx chunk = connStep c2 conn ctx chunk := by
-  have hh : handleEvents c1 = handleEvents c2 := by
-    funext c evs; exact handle_common c1 c2 h1 h2 hi hf c evs
-  unfold connStep
-  rw [accepted_common c1 ctx h1, accepted_common c2 ctx h2, hf, hh]
-  split
-  · rfl
-  · simp only []
-    have hs1 : c1.frontend ≠ .syncUdp := by rcases t1 with h | h | h <;> rw [h] <;> decide
-    have hs2 : c2.frontend ≠ .syncUdp := by rcases t2 with h | h | h <;> rw [h] <;> decide
-    split
-    · simp [hs1, hs2]
-    · rcases t1 with h | h | h <;> rcases t2 with g | g | g <;> simp [h, g]
+    (conn : Conn) (w1 w2 : World) (hs : Sim w1 w2) (chunk : Bytes)
+    (ha : AllSupported (received c1 conn w1.units chunk).1) :
+    (connStep c1 conn w1 chunk).2.2 = (connStep c2 conn w2 chunk).2.2 ∧
+    Sim (connStep c1 conn w1 chunk).2.1 (connStep c2 conn w2 chunk).2.1 ∧
+    (connStep c1 conn w1 chunk).1 = (connStep c2 conn w2 chunk).1 := by
+  obtain ⟨a, b, c⟩ := all_frontends_agree c1 c2 h1 h2 hi hf conn w1 w2 hs chunk ha
+  refine ⟨a, b, c ?_⟩
+  rcases t1 with h | h | h <;> rcases t2 with g | g | g <;> rw [h, g] <;> rfl
 
-/-- the asyncio and Twisted datagram front-ends (one protocol object, one framer for all peers) likewise agree on
-    every datagram, well-formed or not -/
-theorem datagram_frontends_agree (c1 c2 : Cfg) (h1 : Common c1) (h2 : Common c2)
-    (hi : c1.ignoreMissing = c2.ignoreMissing) (hf : c1.framer = c2.framer)
-    (t1 : c1.frontend = .aioUdp ∨ c1.frontend = .twistedUdp)
-    (t2 : c2.frontend = .aioUdp ∨ c2.frontend = .twistedUdp)
-    (conn : Conn) (ctx : Units) (chunk : Bytes) :
-    connStep c1 conn ctx chunk = connStep c2 conn ctx chunk := by
-  have hh : handleEvents c1 = handleEvents c2 := by
-    funext c evs; exact handle_common c1 c2 h1 h2 hi hf c evs
-  unfold connStep
-  rw [accepted_common c1 ctx h1, accepted_common c2 ctx h2, hf, hh]
-  split
-  · rfl
-  · simp only []
-    have hs1 : c1.frontend ≠ .syncUdp := by rcases t1 with h | h <;> rw [h] <;> decide
-    have hs2 : c2.frontend ≠ .syncUdp := by rcases t2 with h | h <;> rw [h] <;> decide
-    split
-    · simp [hs1, hs2]
-    · rcases t1 with h | h <;> rcases t2 with g | g <;> simp [h, g]
+/-- chunk histories on which only supported requests are ever delivered (defined along the run of `c1`) -/
+def HistorySupported (c1 : Cfg) : Conn → World → List Bytes → Prop
+  | _, _, [] => True
+  | conn, w, c :: cs =>
+    AllSupported (received c1 conn w.units c).1 ∧
+    HistorySupported c1 (connStep c1 conn w c).1 (connStep c1 conn w c).2.1 cs
 
-/-- … and over whole chunk histories -/
+/-- … over whole chunk histories: the same bytes written at every step, related worlds at the end -/
 theorem stream_frontends_agree_history (c1 c2 : Cfg) (h1 : Common c1) (h2 : Common c2)
     (hi : c1.ignoreMissing = c2.ignoreMissing) (hf : c1.framer = c2.framer)
     (t1 : c1.frontend = .syncTcp ∨ c1.frontend = .aioTcp ∨ c1.frontend = .twistedTcp)
     (t2 : c2.frontend = .syncTcp ∨ c2.frontend = .aioTcp ∨ c2.frontend = .twistedTcp)
-    (conn : Conn) (ctx : Units) (chunks : List Bytes) :
-    serve c1 conn ctx chunks = serve c2 conn ctx chunks := by
-  induction chunks generalizing conn ctx with
-  | nil => rfl
+    (conn : Conn) (w1 w2 : World) (hs : Sim w1 w2) (chunks : List Bytes) (ha : HistorySupported c1 conn w1 chunks) :
+    (serve c1 conn w1 chunks).2.2 = (serve c2 conn w2 chunks).2.2 ∧
+    Sim (serve c1 conn w1 chunks).2.1 (serve c2 conn w2 chunks).2.1 := by
+  induction chunks generalizing conn w1 w2 with
+  | nil => exact ⟨rfl, hs⟩
   | cons c cs ih =>
-    simp only [serve, stream_frontends_agree c1 c2 h1 h2 hi hf t1 t2, ih]
-
-/-- … and over every interleaving of several connections sharing the datastore -/
-theorem stream_frontends_agree_schedule (c1 c2 : Cfg) (h1 : Common c1) (h2 : Common c2)
-    (hi : c1.ignoreMissing = c2.ignoreMissing) (hf : c1.framer = c2.framer)
-    (t1 : c1.frontend = .syncTcp ∨ c1.frontend = .aioTcp ∨ c1.frontend = .twistedTcp)
-    (t2 : c2.frontend = .syncTcp ∨ c2.frontend = .aioTcp ∨ c2.frontend = .twistedTcp)
-    (conns : Nat → Conn) (ctx : Units) (sched : List (Nat × Bytes)) :
-    serveSched c1 conns ctx sched = serveSched c2 conns ctx sched := by
-  induction sched generalizing conns ctx with
-  | nil => rfl
-  | cons s rest ih =>
-    obtain ⟨i, c⟩ := s
-    simp only [serveSched, stream_frontends_agree c1 c2 h1 h2 hi hf t1 t2, ih]
-
-/-- every front-end, as long as nothing undecodable arrives: same frames, same datastore -/
-theorem all_frontends_agree_on_decodable (c1 c2 : Cfg) (h1 : Common c1) (h2 : Common c2)
-    (hi : c1.ignoreMissing = c2.ignoreMissing) (hf : c1.framer = c2.framer)
-    (conn : Conn) (ctx : Units) (chunk : Bytes)
-    (hno : ((handleEvents c1 ctx (if c1.framer = .tls then tlsFeed decServer (hosted ctx) ctx.single conn.buf chunk
-        else feed (stepFor c1.framer) decServer (hosted ctx) ctx.single conn.buf chunk).1).2.2 = none)) :
-    (connStep c1 conn ctx chunk).2.1 = (connStep c2 conn ctx chunk).2.1 ∧
-    (connStep c1 conn ctx chunk).2.2.1 = (connStep c2 conn ctx chunk).2.2.1 := by
-  have hh : handleEvents c1 = handleEvents c2 := by
-    funext c evs; exact handle_common c1 c2 h1 h2 hi hf c evs
-  unfold connStep
-  rw [accepted_common c1 ctx h1, accepted_common c2 ctx h2, ← hf, ← hh]
-  split
-  · exact ⟨rfl, rfl⟩
-  · simp only [] at hno ⊢
-    split
-    · exact ⟨rfl, rfl⟩
-    · rename_i e he
-      rw [he] at hno; cases hno
+    obtain ⟨hc, hrest⟩ := ha
+    obtain ⟨a, b, d⟩ := stream_frontends_agree c1 c2 h1 h2 hi hf t1 t2 conn w1 w2 hs c hc
+    obtain ⟨i1, i2⟩ := ih (connStep c1 conn w1 c).1 (connStep c1 conn w1 c).2.1 (connStep c2 conn w2 c).2.1 b hrest
+    simp only [serve]
+    rw [← d]
+    refine ⟨?_, i2⟩
+    rw [show (connStep c1 conn w1 c).2.2.1 = (connStep c2 conn w2 c).2.2.1 from congrArg Prod.fst a,
+        show (connStep c1 conn w1 c).2.2.2 = (connStep c2 conn w2 c).2.2.2 from congrArg Prod.snd a,
+        show (serve c1 (connStep c1 conn w1 c).1 (connStep c1 conn w1 c).2.1 cs).2.2.1 = _ from congrArg Prod.fst i1,
+        show (serve c1 (connStep c1 conn w1 c).1 (connStep c1 conn w1 c).2.1 cs).2.2.2 = _ from congrArg Prod.snd i1]
 
 /-- each connection's framing state is private: what a connection receives and decodes does not depend on the
     contents of the datastore, only on which units are hosted — so interleaving other connections' traffic
     changes nothing for it except the order in which writes take effect -/
 theorem framing_independent_of_store (cfg : Cfg) (conn : Conn) (ctx ctx' : Units) (chunk : Bytes)
     (hh : hosted ctx = hosted ctx') (hs : ctx.single = ctx'.single) :
-    (if cfg.framer = .tls then tlsFeed decServer (acceptedUnits cfg ctx) ctx.single conn.buf chunk
-      else feed (stepFor cfg.framer) decServer (acceptedUnits cfg ctx) ctx.single conn.buf chunk) =
-    (if cfg.framer = .tls then tlsFeed decServer (acceptedUnits cfg ctx') ctx'.single conn.buf chunk
-      else feed (stepFor cfg.framer) decServer (acceptedUnits cfg ctx') ctx'.single conn.buf chunk) := by
-  simp only [acceptedUnits, hh, hs]
+    received cfg conn ctx chunk = received cfg conn ctx' chunk := by
+  simp only [received, acceptedUnits, hh, hs]
 
 /-- the callback never changes the single/multi mode of the server context -/
-theorem mode_invariant (cfg : Cfg) (ctx : Units) (r : Req) (uid : Nat) :
-    (callback cfg ctx r uid).1.single = ctx.single := by
+theorem mode_invariant (cfg : Cfg) (w : World) (r : Req) (uid : Nat) :
+    (callback cfg w r uid).1.units.single = w.units.single := by
   unfold callback
   split
   · rfl
   · split
     · split <;> rfl
     · rfl
+
+example : Sim ⟨ServerCtx.mkSingle ⟨[.seq ⟨0, [1]⟩], 0, 0, 0, 0, true⟩, C12.ctl0⟩
+    ⟨ServerCtx.mkSingle ⟨[.seq ⟨0, [1]⟩], 0, 0, 0, 0, true⟩, { C12.ctl0 with counters := [5, 0, 0, 0, 0, 0, 0, 0, 0] }⟩ :=
+  ⟨rfl, rfl, rfl, rfl⟩
+example : supported (.readHolding 0 1) = true ∧ supported .reportSlaveId = true ∧ supported (.diag 11 (.int 0)) = false := by
+  decide
 
 end Pymodbus.Props.C17
